@@ -313,6 +313,8 @@ def run(ctx):
     check_terminator_flag(ctx)
     ctx.rule("R11", "the look-ahead of a frame loop leaves the input unchanged (evaluated on a model LineIterator)", "lines put back in the wrong order, not at all or twice: the frame parser reads the count where the title is, a legal frame is rejected or mis-read")
     check_lookahead_transparency(ctx, "R11")
+    ctx.rule("R13", "inside a frame parser, the end of the input is taken as a normal end only where a new record would start", "a handler that also covers the record readers: a file cut inside an ATOM / BOND block yields a partial frame (or silently one frame fewer) without warning")
+    check_boundary_handlers(ctx, "R13")
     ctx.rule("R12", "a PDB CONECT record that names an atom outside the frame is an error, not a silently dropped bond", "a frame whose bond table refers to a missing atom loads as a complete frame with fewer bonds")
     from .c03 import check_pdb_conect_lookup
 
@@ -561,3 +563,68 @@ def check_sequence_end(ctx, rid):
         else:
             ctx.ok(rid, f"{short}.load_many: the sequence ends only at end of input" + ("" if short in BLANK_FIRST_LINE else " or at a blank line (a frame of this format cannot start with one)"), f"{lm.module.relpath}:{lm.lineno}")
     ctx.floor(rid, n, 6, "generator load_many functions")
+
+
+#: helper calls that may stand inside a StopIteration-tolerant `try` of a frame parser
+BOUNDARY_HELPER_OK = {
+    ("iodata.formats.fchk._load_fchk_low", "iodata.formats.fchk._load_fchk_field"): "a field cut by the end of the file is dropped as a whole; fchk.load_many subscripts every trajectory field it uses, so the missing field raises (KeyError -> LoadError): no partial frame (the required-label clause is C13-R6 / C02-R2)",
+}
+
+
+def check_boundary_handlers(ctx, rid):
+    """Frame parsers of the trajectory formats (`load_one` and the helpers it reaches): a `try` whose handler accepts
+    StopIteration without raising may only cover the fetch of the *next record head* -- `line = next(lit)` (possibly
+    stripped / lower-cased), blank-line skipping -- never a call that reads the inside of a record.  Otherwise the end
+    of a truncated file inside a block is mistaken for the normal end of the frame."""
+    prog = ctx.prog
+    nsites = 0
+    for short, mod in sorted(prog.format_modules().items()):
+        lm = prog.format_op(short, "load_many")
+        if lm is None:
+            continue
+        # parser functions: load_many, load_one and everything of the package they reach that takes the iterator
+        todo = [g for g in (lm, prog.format_op(short, "load_one")) if g is not None]
+        seen = []
+        while todo:
+            g = todo.pop()
+            if g in seen:
+                continue
+            seen.append(g)
+            for cs in g.calls:
+                for h in cs.callees:
+                    if h.module.name.startswith("iodata.formats.") and h not in seen:
+                        todo.append(h)
+        for g in seen:
+            if g is lm:
+                continue  # the handlers of the frame loop itself are decided by R2 / R3 (what they may swallow)
+            for t in [n for n in g.own_nodes() if isinstance(n, ast.Try)]:
+                tolerant = None
+                for h in t.handlers:
+                    names = [] if h.type is None else [getattr(x, "id", getattr(x, "attr", "")) for x in (h.type.elts if isinstance(h.type, ast.Tuple) else [h.type])]
+                    catches = h.type is None or any(nm in ("StopIteration", "Exception", "BaseException") for nm in names)
+                    if catches and not (h.body and isinstance(h.body[-1], ast.Raise)):
+                        tolerant = h
+                if tolerant is None:
+                    continue
+                nsites += 1
+                offending = None
+                for st in t.body:
+                    for x in ast.walk(st):
+                        if not isinstance(x, ast.Call):
+                            continue
+                        cs = next((c for c in g.calls if c.node is x), None)
+                        callees = [h for h in (cs.callees if cs else []) if h.module.name.startswith("iodata.") and h.cls is None]
+                        for h in callees:
+                            if (g.qualname, h.qualname) in BOUNDARY_HELPER_OK:
+                                continue
+                            # a package function that is handed the line iterator reads inside a record
+                            if any(isinstance(a, ast.Name) and a.id in ("lit",) for a in x.args) or any(isinstance(a, ast.Name) and a.id in g.posparams[:1] for a in x.args):
+                                offending = (x, h)
+                    # reading more than record heads: a conversion of what was read (int(), float(), indexing words)
+                    # belongs to a record as well -- but is not an end-of-input matter; only consumption counts here
+                if offending is not None:
+                    x, h = offending
+                    ctx.violate(rid, f"{g.qualname}: the `try` that takes StopIteration for the normal end of the input also covers `{src_of(x)[:60]}`: when the file ends inside that block the frame is returned as it stands (or the sequence ends one frame short) without warning", g, t, construct=f"tolerant try covers {h.name}")
+                else:
+                    ctx.ok(rid, f"{g.qualname}: the StopIteration-tolerant try at line {t.lineno} covers record-head reads only", f"{g.module.relpath}:{t.lineno}", sample=False)
+    ctx.floor(rid, nsites, 3, "StopIteration-tolerant try statements in frame parsers")
